@@ -478,3 +478,16 @@ def term_height(t) -> int:
     if isinstance(t, Some):
         return term_height(t.x)
     return 0
+
+
+def contains(t, ctor: str) -> bool:
+    """Does the term mention the constructor anywhere?"""
+    if isinstance(t, tuple):
+        return (bool(t) and t[0] == ctor) or any(contains(x, ctor) for x in t[1:])
+    if isinstance(t, list):
+        return any(contains(x, ctor) for x in t)
+    if isinstance(t, P):
+        return contains(t.a, ctor) or contains(t.b, ctor)
+    if isinstance(t, Some):
+        return contains(t.x, ctor)
+    return False
